@@ -100,7 +100,10 @@ fn conventional_authority(a: &[u8]) -> bool {
             return false;
         }
     }
+    // acceptance is demanded for hosts up to the DNS limit of 253 octets only (longer ones are
+    // don't-care for the parsers; once accepted they obey every law)
     !host.is_empty()
+        && host.len() <= 253
         && host.split(|&c| c == b'.').all(|l| !l.is_empty() && l.iter().all(|&c| c.is_ascii_alphanumeric() || c == b'-'))
 }
 
@@ -1192,10 +1195,11 @@ fn damage(mut s: Vec<u8>, kind: u8, pos: u16, which: u16) -> Vec<u8> {
 
 fn seg_strategy() -> BoxedStrategy<String> {
     prop_oneof![
-        5 => "[a-zA-Z0-9]{1,8}",
-        2 => "[a-zA-Z]{1,3}\\.[a-z]{3}",
-        2 => "[a-zA-Z0-9._~%$&'()*+,;=:-]{1,8}",
-        1 => "[.]{1,3}[a-z]{0,2}",
+        50 => "[a-zA-Z0-9]{1,8}",
+        20 => "[a-zA-Z]{1,3}\\.[a-z]{3}",
+        1 => "[a-zA-Z0-9]{100,300}",
+        20 => "[a-zA-Z0-9._~%$&'()*+,;=:-]{1,8}",
+        10 => "[.]{1,3}[a-z]{0,2}",
     ]
     .boxed()
 }
@@ -1204,7 +1208,12 @@ fn spec_strategy() -> BoxedStrategy<Spec> {
     (
         any::<bool>(),
         prop_oneof![3 => Just(0u8), 1 => Just(0x1fu8), 1 => 0u8..32],
-        prop::collection::vec("[a-zA-Z0-9]([a-zA-Z0-9-]{0,6}[a-zA-Z0-9])?", 1..5),
+        // conventional hosts, and (1 in 8) hosts of 64..380 octets: long labels, so that the
+        // scheme + authority part reaches and passes 127/128, 255/256 octets
+        prop_oneof![
+            7 => prop::collection::vec("[a-zA-Z0-9]([a-zA-Z0-9-]{0,6}[a-zA-Z0-9])?", 1..5),
+            1 => prop::collection::vec("[a-zA-Z]([a-zA-Z0-9-]{30,61}[a-zA-Z])", 2..7),
+        ],
         prop::option::weighted(0.3, any::<u16>()),
         prop_oneof![4 => "[a-zA-Z]{1,6}", 1 => "[a-zA-Z0-9._~%-]{1,8}"],
         prop::collection::vec(seg_strategy(), 0..9),
@@ -1310,6 +1319,13 @@ fn run_random(c: &Rand, obs: &mut Obs) -> CheckResult {
     obs.label_if(mod_case, "module-case-differs");
     obs.label_if(joined, "join-ok");
     obs.label_if(hs.iter().any(|h| h.ae == h.b().len()), "https-pathless");
+    let long = |ae: usize| ae > 8 + 240;
+    obs.label_if(rs.iter().any(|r| long(r.ae)) || hs.iter().any(|h| long(h.ae)), "authority-over-240-octets");
+    obs.label_if(
+        rs.iter().any(|x| long(x.ae) && rs.iter().any(|y| x.uri == y.uri && x.text != y.text))
+            || hs.iter().any(|x| long(x.ae) && hs.iter().any(|y| x.uri == y.uri && x.text != y.text)),
+        "long-authority-equal-different-text",
+    );
     obs.nontrivial_if(common || joined);
     Ok(())
 }
@@ -1340,7 +1356,7 @@ pub fn property() -> Property {
                 floors: &[
                     ("all-accepted", 0.3), ("some-rejected", 0.15), ("rsync", 0.2), ("https", 0.2), ("common-module", 0.4),
                     ("equal-different-text", 0.1), ("parent-pair", 0.1), ("module-case-differs", 0.04), ("join-ok", 0.35),
-                    ("https-pathless", 0.03),
+                    ("https-pathless", 0.03), ("authority-over-240-octets", 0.02), ("long-authority-equal-different-text", 0.005),
                 ],
             }
             .boxed(),
